@@ -247,7 +247,12 @@ func (vc *VC) chanRecv(fr *Frame, ch ssa.Value, commaOk bool, pos token.Pos) SV 
 	return vc.eng.chanRecv(vc, fr, ch, commaOk, pos)
 }
 
-func (vc *VC) chanClose(fr *Frame, ref string) { vc.chanCloseImpl(ref) }
+func (vc *VC) chanClose(fr *Frame, ref string, et types.Type) { vc.chanCloseImpl(ref, et) }
+
+func (vc *VC) chanLenT(ref string, et types.Type) string {
+	vc.chET = et
+	return vc.chanLen(ref)
+}
 
 func (vc *VC) chanLen(ref string) string {
 	return "(bvsub " + vc.chTail(ref) + " " + vc.chHead(ref) + ")"
